@@ -15,7 +15,7 @@ import math
 
 import numpy as np
 
-from .common import Check, lean_stage, rel_close, run_driver
+from .common import Check, lean_stage, rel_close, run_driver, q
 
 
 # ---------------------------------------------------------------------------------------
@@ -173,7 +173,7 @@ def random_ops(rng, n):
         iv, ie, it, ik = rng.randrange(nv + 1), rng.randrange(ne + 1), rng.randrange(nt + 1), rng.randrange(nk + 1)  # +1: sometimes out of range
         if rng.random() < 0.9:
             iv, ie, it, ik = iv % nv, ie % ne, it % nt, ik % nk
-        r = rng.randint(0, 6)
+        r = rng.choice([0, 0, 1, 2, 3, 4, 5, 6])  # vanished droplets (radius 0) are ordinary members
         if k == "newDrop":
             op = (k, rng.choice([0, 1]), rng.choice([1, 1, 2]), r); nv += 1
         elif k == "setVar":
@@ -185,7 +185,7 @@ def random_ops(rng, n):
         elif k == "emExtend":
             op = (k, ie, rng.randrange(ne))
         elif k == "emCopy":
-            op = (k, ie, rng.choice([-1, 0, 2, 4])); ne += 1 if ie < ne else 0
+            op = (k, ie, rng.choice([-1, 0, 0, 0, 2, 4])); ne += 1 if ie < ne else 0
         elif k == "emSlice":
             lo = rng.randint(0, 3); op = (k, ie, lo, lo + rng.randint(0, 3)); ne += 1 if ie < ne else 0
         elif k == "emAdd":
@@ -195,7 +195,7 @@ def random_ops(rng, n):
         elif k == "emSetMember":
             op = (k, ie, rng.randint(0, 3), r)
         elif k == "emRemoveSmall":
-            op = (k, ie, rng.choice([0, 2, 3]))
+            op = (k, ie, rng.choice([0, 0, 2, 3]))
         elif k in ("emClear", "emLink"):
             op = (k, ie)
         elif k == "newTc":
@@ -247,6 +247,12 @@ def check_stats(ck: Check, n: int):
     from droplets.emulsions import Emulsion, EmulsionTimeCourse
 
     rng = ck.rng
+    reqs, expect = [], []
+
+    def model(req, kind, payload, case):
+        reqs.append(req)
+        expect.append((kind, payload, case))
+
     for _ in range(n):
         dim = rng.choice([1, 2, 3])
         k = rng.choice([0, 1, 2, 5, 9])
@@ -274,6 +280,15 @@ def check_stats(ck: Check, n: int):
             for key, w in want.items():
                 if not rel_close(float(s1[key]), float(w), 1e-9, 1e-12) or not rel_close(float(s1[key]), float(s2[key]), 1e-9, 1e-12):
                     ck.fail(f"size statistic {key} = {s1[key]} (permuted {s2[key]}), definition gives {w}", {"check": "stats_definition", "stat": key}, case)
+            if drops:
+                model(f"c20 stats size {int(incl)} " + " ".join(q(d.radius) for d in drops), "size", (s1, "radius"), case)
+                model(f"c20 stats size {int(incl)} " + " ".join(q(d.volume) for d in drops if incl or d.radius > 0), "size", (s1, "volume"), case)
+        # filter by radius: copy(min_radius) keeps exactly the strictly larger droplets, in order
+        for mr in (0.0, -1.0, rng.choice([0.5, 1.0, 2.0])):
+            got_r = [d.radius for d in em.copy(min_radius=mr)]
+            if got_r != [d.radius for d in drops if d.radius > mr]:
+                ck.fail(f"copy(min_radius={mr}) keeps radii {got_r}", {"check": "stats_definition", "stat": "copy_min_radius"}, {**case, "min_radius": mr})
+            model(f"c20 stats keep {q(mr)} " + " ".join(q(d.radius) for d in drops), "keep", got_r, case)
         tv = sum(d.volume for d in drops)
         if not rel_close(float(em.total_droplet_volume), tv, 1e-12, 1e-12) or not rel_close(float(em2.total_droplet_volume), tv, 1e-9, 1e-12):
             ck.fail("total_droplet_volume differs from the sum of member volumes / depends on order", {"check": "stats_definition", "stat": "total_volume"}, case)
@@ -283,6 +298,7 @@ def check_stats(ck: Check, n: int):
         got_w, got_w2 = em.interface_width, em2.interface_width
         if (want_w is None) != (got_w is None) or (want_w is not None and (not rel_close(got_w, want_w, 1e-9) or not rel_close(got_w2, want_w, 1e-9))):
             ck.fail(f"interface_width {got_w} vs area-weighted mean {want_w}", {"check": "stats_definition", "stat": "interface_width"}, case)
+        model(("c20 stats width " + " ".join(f"{q(w)} {q(a)}" for w, a in ws)).strip(), "width", got_w, case)
         if k:
             lo = np.min([d.position - d.radius for d in drops], axis=0)
             hi = np.max([d.position + d.radius for d in drops], axis=0)
@@ -290,6 +306,9 @@ def check_stats(ck: Check, n: int):
                 bb = e.bbox
                 if not (np.allclose(bb.pos, lo, rtol=1e-12, atol=1e-12) and np.allclose(bb.pos + bb.size, hi, rtol=1e-12, atol=1e-12)):
                     ck.fail(f"bbox {bb} vs hull [{lo},{hi}]", {"check": "stats_definition", "stat": "bbox"}, case)
+            bb = em.bbox
+            for a in range(dim):
+                model("c20 stats bbox " + " ".join(f"{q(d.position[a])} {q(d.radius)}" for d in drops), "bbox", (float(bb.pos[a]), float(bb.pos[a] + bb.size[a])), case)
         # tracks: trajectory, duration, nearest-time lookup, remove_short_tracks
         if k >= 1:
             times = sorted({round(rng.uniform(-3, 9), 2) for _ in range(k)})
@@ -303,26 +322,81 @@ def check_stats(ck: Check, n: int):
             dur = (tr.times[-1] - tr.times[0]) if len(tr.times) else 0
             if tr.duration != dur:
                 ck.fail("duration != end - start", {"check": "stats_definition", "stat": "duration"}, case)
+            model(("c20 stats duration " + " ".join(q(t) for t in tr.times)).strip(), "duration", float(tr.duration), case)
             tl = DropletTrackList([tr, DropletTrack(sub[:1], times[:1])])
             md = rng.choice([0, dur / 2, dur])
             keep = [t for t in tl if t.duration > md]
             tl.remove_short_tracks(md)
             if [id(t) for t in tl] != [id(t) for t in keep]:
                 ck.fail("remove_short_tracks is not the filter duration > min_duration", {"check": "stats_definition", "stat": "remove_short_tracks"}, case)
-        etc_times = sorted({round(rng.uniform(0, 10), 1) for _ in range(rng.randint(1, 5))})
+        # nearest-time lookup: times in ANY order (appended out of chronological order, reversed), also repeated values,
+        # queries between, outside and exactly in the middle of two members
+        etc_times = [round(rng.uniform(0, 10), 1) for _ in range(rng.randint(1, 6))]
+        mode = rng.choice(["sorted", "sorted", "shuffled", "reversed", "repeated"])
+        if mode == "sorted":
+            etc_times = sorted(set(etc_times))
+        elif mode == "reversed":
+            etc_times = sorted(set(etc_times), reverse=True)
+        elif mode == "repeated":
+            etc_times = etc_times + etc_times[:1]
         etc = EmulsionTimeCourse([Emulsion([SphericalDroplet(np.zeros(1), float(i + 1))]) for i in range(len(etc_times))], etc_times)
-        tq = rng.uniform(-1, 11)
-        got = etc.get_emulsion(tq)
-        best = min(range(len(etc_times)), key=lambda i: (abs(etc_times[i] - tq), i))
-        if got is not etc.emulsions[best]:
-            ck.fail(f"get_emulsion({tq}) is not the member nearest in time", {"check": "stats_definition", "stat": "nearest_time"}, case)
+        ck.count("nearest_time." + mode)
+        for tq in (rng.uniform(-1, 11), rng.choice(etc_times), (etc_times[0] + etc_times[-1]) / 2):
+            got = etc.get_emulsion(tq)
+            best = min(range(len(etc_times)), key=lambda i: (abs(etc_times[i] - tq), i))
+            if got is not etc.emulsions[best]:
+                ck.fail(f"get_emulsion({tq}) with times {etc_times} is not the (first) member nearest in time", {"check": "stats_definition", "stat": "nearest_time"},
+                        {**case, "times": etc_times, "query": tq})
+            idx = [i for i, e in enumerate(etc.emulsions) if e is got]
+            # the exact model decides ties exactly; float subtraction may turn two different exact distances into equal
+            # floats (query exactly between two members): such near-ties are not compared with the model
+            from fractions import Fraction as _F
+            dists = sorted({abs(_F(t) - _F(tq)) for t in etc_times})
+            if len(dists) > 1 and float(dists[1] - dists[0]) < 1e-9 * max(1.0, float(dists[1])):
+                ck.count("nearest_time.near_tie_not_compared_with_exact_model")
+            else:
+                model(f"c20 stats nearest {q(tq)} " + " ".join(q(t) for t in etc_times), "nearest", idx[0] if idx else -1, case)
+    # ---- the same queries in the exact model (Model/Stats.lean; theorems in Props/C20.lean)
+    from fractions import Fraction
+
+    outs = run_driver(reqs) if reqs else []
+    for (kind, payload, case), req, out in zip(expect, reqs, outs):
+        toks = out.split()
+        bad = None
+        if not toks or toks[0] != "ok":
+            bad = f"model answered {out[:60]}"
+        elif kind == "size":
+            s1, which = payload
+            if int(toks[1]) != int(s1["count"]):
+                bad = f"count {s1['count']} vs model {toks[1]}"
+            elif toks[2] != "nan":
+                mean, var = float(Fraction(toks[2])), float(Fraction(toks[3]))
+                if not rel_close(float(s1[which + "_mean"]), mean, 1e-12, 1e-15) or not rel_close(float(s1[which + "_std"]) ** 2, var, 1e-9, 1e-18):
+                    bad = f"{which} mean/std {s1[which + '_mean']}/{s1[which + '_std']} vs model mean {mean}, variance {var}"
+        elif kind == "keep":
+            if [float(Fraction(x)) for x in toks[1:]] != [float(x) for x in payload]:
+                bad = f"copy(min_radius) keeps {payload}, model {toks[1:]}"
+        elif kind == "width":
+            if (toks[1] == "none") != (payload is None) or (payload is not None and not rel_close(float(payload), float(Fraction(toks[1])), 1e-12)):
+                bad = f"interface_width {payload} vs model {toks[1]}"
+        elif kind == "bbox":
+            if toks[1] == "none" or not rel_close(payload[0], float(Fraction(toks[1])), 1e-12, 1e-12) or not rel_close(payload[1], float(Fraction(toks[2])), 1e-12, 1e-12):
+                bad = f"bbox {payload} vs model {toks[1:]}"
+        elif kind == "duration":
+            if not rel_close(payload, float(Fraction(toks[1])), 1e-15, 0):
+                bad = f"duration {payload} vs model {toks[1]}"
+        elif kind == "nearest":
+            if toks[1] == "none" or int(toks[1]) != payload:
+                bad = f"get_emulsion picked member {payload}, model {toks[1]}"
+        if bad:
+            ck.mismatch("c20-stats", bad + f" [{req[:400]}]", case)
 
 
 def exhaustive_ops():
-    """all sequences of length <= 4 over a 7-op alphabet on one emulsion / one track"""
-    base = [("newDrop", 0, 1, 2), ("newDrop", 1, 1, 3), ("newEm",), ("newTr",)]
-    alpha = [("emAppend", 0, 0, True, False), ("emAppend", 0, 1, False, True), ("setVar", 0, 5), ("emGet", 0, 0), ("emSlice", 0, 0, 2),
-             ("emRemoveSmall", 0, 2), ("trAppend", 0, 0, None)]
+    """all sequences of length <= 4 over a 9-op alphabet on one emulsion / one track"""
+    base = [("newDrop", 0, 1, 2), ("newDrop", 1, 1, 3), ("newDrop", 0, 1, 0), ("newEm",), ("newTr",)]
+    alpha = [("emAppend", 0, 0, True, False), ("emAppend", 0, 1, False, True), ("emAppend", 0, 2, True, False), ("setVar", 0, 5), ("emGet", 0, 0),
+             ("emSlice", 0, 0, 2), ("emRemoveSmall", 0, 2), ("emCopy", 0, 0), ("trAppend", 0, 0, None)]
     for n in range(1, 5):
         for seq in itertools.product(alpha, repeat=n):
             yield base + list(seq)
@@ -412,7 +486,7 @@ def replay(case: dict):
 
 
 def run(ck: Check):
-    ck.rule = ("exhaustive op sequences up to length 4 over a 7-op alphabet (2 800 sequences) + random sequences (length up to 40 quick / 200 thorough) over 22 "
+    ck.rule = ("exhaustive op sequences up to length 4 over a 9-op alphabet (7 380 sequences; vanished droplets and copy(min_radius=0) included) + random sequences (length up to 40 quick / 200 thorough) over 22 "
                "operations on emulsions, time courses and tracks of Spherical/Diffuse droplets in 1-2-D with occasional invalid handles; dump compared after "
                "every op (values, order, times, dtypes, alias classes); statistics vs definitions on random emulsions/tracks; non-trivial = distinct sequences")
     ck.assumptions = ["remove_overlapping is covered by C10 (identity/order of survivors), DropletTrackList slices share their tracks (observed, outside the property)",
